@@ -158,14 +158,14 @@ impl Presented {
     }
 }
 
-struct Adj {
-    n: usize,
-    out: Vec<Vec<usize>>,
-    inc: Vec<Vec<usize>>,
+pub struct Adj {
+    pub n: usize,
+    pub out: Vec<Vec<usize>>,
+    pub inc: Vec<Vec<usize>>,
 }
 
 impl Adj {
-    fn new(g: &BigGraph) -> Adj {
+    pub fn new(g: &BigGraph) -> Adj {
         let mut out = vec![vec![]; g.n];
         let mut inc = vec![vec![]; g.n];
         let set: BTreeSet<(u16, u16)> = g.att.iter().copied().collect();
@@ -175,7 +175,7 @@ impl Adj {
         }
         Adj { n: g.n, out, inc }
     }
-    fn components(&self) -> Vec<Vec<usize>> {
+    pub fn components(&self) -> Vec<Vec<usize>> {
         let mut comp = vec![usize::MAX; self.n];
         let mut res = vec![];
         for s in 0..self.n {
@@ -200,10 +200,10 @@ impl Adj {
         }
         res
     }
-    fn conflict_free(&self, s: &[bool]) -> bool {
+    pub fn conflict_free(&self, s: &[bool]) -> bool {
         (0..self.n).all(|a| !s[a] || self.out[a].iter().all(|b| !s[*b]))
     }
-    fn attacked_by(&self, s: &[bool]) -> Vec<bool> {
+    pub fn attacked_by(&self, s: &[bool]) -> Vec<bool> {
         let mut r = vec![false; self.n];
         for a in 0..self.n {
             if s[a] {
@@ -215,7 +215,7 @@ impl Adj {
         r
     }
     /// complete: conflict-free and contains exactly the arguments it defends
-    fn complete(&self, s: &[bool]) -> bool {
+    pub fn complete(&self, s: &[bool]) -> bool {
         if !self.conflict_free(s) {
             return false;
         }
@@ -225,14 +225,21 @@ impl Adj {
             defended == s[a]
         })
     }
-    fn stable(&self, s: &[bool]) -> bool {
+    pub fn admissible(&self, s: &[bool]) -> bool {
+        if !self.conflict_free(s) {
+            return false;
+        }
+        let def = self.attacked_by(s);
+        (0..self.n).all(|a| !s[a] || self.inc[a].iter().all(|b| def[*b]))
+    }
+    pub fn stable(&self, s: &[bool]) -> bool {
         if !self.conflict_free(s) {
             return false;
         }
         let def = self.attacked_by(s);
         (0..self.n).all(|a| s[a] || def[a])
     }
-    fn grounded(&self) -> Vec<bool> {
+    pub fn grounded(&self) -> Vec<bool> {
         let mut s = vec![false; self.n];
         loop {
             let def = self.attacked_by(&s);
